@@ -464,7 +464,7 @@ def explore(ctx, kind: str, init: int, depth: int, stats: dict, samples: list):
 
 
 def run(ctx):
-    depth = int(__import__('os').environ.get('C19_DEPTH', 3 if ctx.quick else 5))
+    depth = int(__import__('os').environ.get('C19_DEPTH', 4 if ctx.quick else 5))
     stats = {'states': 0, 'transitions': 0, 'unspecified_skipped': 0, 'violating_transitions': 0, 'max_depth': 0}
     samples: list = []
     per = {}
